@@ -153,6 +153,15 @@ Theorem C11_run_denote : forall table W buckets body md lay, wf_layout lay ->
 Proof. exact run_denote. Qed.
 Print Assumptions C11_run_denote.
 
+(* The same equation at a world that logs every body call (name, actual arguments) as it happens:
+   query() and the reference evaluator make the same built-in body calls in the same order. *)
+Theorem C11_same_body_calls : forall table W buckets body md lay name starttime endtime pg w,
+  wf_layout lay -> wf_prog md pg ->
+  run table (W * call_log) (log_buckets buckets) (log_body body) md name starttime endtime (print lay pg) (w, []) =
+  denote_prog table (W * call_log) (log_buckets buckets) (log_body body) name starttime endtime pg (w, []).
+Proof. exact run_same_calls. Qed.
+Print Assumptions C11_same_body_calls.
+
 (* Spacing and line breaks around separators do not change the result. *)
 Theorem C11_layout_irrelevant : forall table W buckets body md lay1 lay2 name starttime endtime pg,
   wf_layout lay1 -> wf_layout lay2 -> wf_prog md pg -> forall w,
@@ -160,6 +169,14 @@ Theorem C11_layout_irrelevant : forall table W buckets body md lay1 lay2 name st
   run table W buckets body md name starttime endtime (print lay2 pg) w.
 Proof. exact run_layout_irrelevant. Qed.
 Print Assumptions C11_layout_irrelevant.
+
+(* The fuel the model's parser hands out always suffices on a printed program (the equation above is
+   never the degenerate OutOfFuel = OutOfFuel). *)
+Theorem C11_run_total : forall table W buckets body md lay name starttime endtime pg w,
+  wf_layout lay -> wf_prog md pg ->
+  fst (run table W buckets body md name starttime endtime (print lay pg) w) <> OutOfFuel.
+Proof. exact run_print_fuel. Qed.
+Print Assumptions C11_run_total.
 
 (* ------------------------------------------------------------------------------------------- *)
 (* The clauses of the property text.                                                             *)
@@ -240,6 +257,17 @@ Example C11_ex_order : ex_run_w (print ex_layout [(s_RETURN, TCall (zs "echo") e
   (Ok (VList [VOpaque 0; VOpaque 1; VList [VOpaque 2]]), 3).
 Proof.
   unfold ex_run_w. rewrite (C11_run_denote _ _ _ _ _ _ ex_layout_wf). vm_compute. reflexivity.
+  constructor; [split; [apply wf_RETURN|exact ex_order_wf]|constructor].
+Qed.
+
+(* ... and the logged calls are limit_events([], 1), limit_events([], 2), limit_events([], 3) in this order *)
+Example C11_ex_calls :
+  map (fun c => (fst c, vals_of_args (snd c)))
+      (snd (snd (run ex_table (Z * call_log) (log_buckets ex_buckets) (log_body ex_body) 4300 (zs "n") (zs "t0") (zs "t1")
+                     (print ex_layout2 [(s_RETURN, TCall (zs "echo") ex_order_args)]) (0, [])))) =
+  [(zs "limit_events", [VList []; VInt 1]); (zs "limit_events", [VList []; VInt 2]); (zs "limit_events", [VList []; VInt 3])].
+Proof.
+  rewrite (C11_same_body_calls _ _ _ _ _ _ _ _ _ _ _ ex_layout2_wf). vm_compute. reflexivity.
   constructor; [split; [apply wf_RETURN|exact ex_order_wf]|constructor].
 Qed.
 
